@@ -51,7 +51,7 @@ class Prop(PropBase):
         for nm in ("dct", "fftfreq", "next_fast_len", "FFT", "", "__wrapped__", "ifft3"):
             yield {"op": "name", "name": nm}
         for _ in range(120 if quick else 4000):
-            P = rng.choice([1, 2, 3, 4, 5, 8])
+            P = rng.choice([1, 2, 3, 4, 5, 8, 8, 256])      # 256 = the default nperseg (then the argument is left out)
             L = rng.choice([P, 2 * P, 3 * P + 1, 4 * P + P - 1, 32])
             yield {"op": "stft", "cls": rng.choice(["BasebandSignal", "DualPolarizationSignal"]), "n": rng.choice([1, 2, 3, 4]),
                    "al": rng.choice(["bottom", "center", "top"]), "P": P, "L": max(L, P), "rate": rng.choice([1e3, 1e6, 8e6]),
@@ -148,9 +148,11 @@ class Prop(PropBase):
         z = sigs.make(pb, case["cls"], L, case["rate"] * u.Hz, case["t0"], nchan=n, data=x, center_freq=case["cf"] * u.Hz,
                       freq_align=case["al"], **kw)
         try:
-            y = pb.contrib.stft(z, nperseg=P)
+            # the segment length as a Python int, a NumPy integer or an integral float; the default (256) by omission
+            Pf = [P, np.int64(P), float(P), np.int32(P)][case["seed"] % 4]
+            y = pb.contrib.stft(z) if P == 256 else pb.contrib.stft(z, nperseg=Pf)
             y_before = np.array(np.asarray(y.data), copy=True)
-            w = pb.contrib.istft(y, nperseg=P)
+            w = pb.contrib.istft(y) if P == 256 else pb.contrib.istft(y, nperseg=Pf)
             w_again = pb.contrib.istft(y, nperseg=P)           # the STFT object is reused: same answer, object unchanged
             y_again = pb.contrib.stft(z, nperseg=P)
             repeat_ok = bool(np.array_equal(np.asarray(w_again.data), np.asarray(w.data))
@@ -178,7 +180,24 @@ class Prop(PropBase):
                     "n": int(s.nchan), "al": s.freq_align, "bw": X.rat(X.q_value(s.chan_bw, u.Hz)),
                     "labels": [X.rat(X.q_value(f, u.Hz)) for f in s.channel_freqs],
                     "shape": list(s.shape)}
-        out = {"repeat_ok": repeat_ok, "lazy_ok": lazy_ok, "stft": desc(y), "istft": desc(w), "orig_labels": [X.rat(X.q_value(f, u.Hz)) for f in z.channel_freqs]}
+        # anything that is not a baseband signal is refused (ValueError), unsupported window/overlap settings give NotImplemented
+        rej = []
+        inten = pb.IntensitySignal(np.abs(x) ** 2, sample_rate=z.sample_rate, center_freq=z.center_freq, chan_bw=z.chan_bw) \
+            if case["cls"] == "BasebandSignal" else z.to_stokes()
+        for lab, fn in (("stft(IntensitySignal)", lambda: pb.contrib.stft(inten, nperseg=P)),
+                        ("istft(IntensitySignal)", lambda: pb.contrib.istft(inten, nperseg=P)),
+                        ("stft(ndarray)", lambda: pb.contrib.stft(x, nperseg=P)),
+                        ("stft(Signal)", lambda: pb.contrib.stft(pb.Signal(x, sample_rate=z.sample_rate), nperseg=P))):
+            try:
+                fn()
+                rej.append(lab + " accepted")
+            except ValueError:
+                pass
+            except Exception as e:      # noqa
+                rej.append(f"{lab}: {type(e).__name__}")
+        if pb.contrib.stft(z, nperseg=P, noverlap=1) is not NotImplemented or pb.contrib.istft(y, nperseg=P, window="hann") is not NotImplemented:
+            rej.append("unsupported window/noverlap not answered with NotImplemented")
+        out = {"rejects": rej, "repeat_ok": repeat_ok, "lazy_ok": lazy_ok, "stft": desc(y), "istft": desc(w), "orig_labels": [X.rat(X.q_value(f, u.Hz)) for f in z.channel_freqs]}
         Lt = (L // P) * P
         scale = float(np.max(np.abs(x)))
         out["recon_err"] = float(np.max(np.abs(np.asarray(w.data) - x[:Lt])) / scale) if w.shape == x[:Lt].shape else -1.0
@@ -290,6 +309,8 @@ class Prop(PropBase):
             return f"tone at {float(F(t['true_freq']))} Hz peaks in the sub-channel labelled {float(F(t['peak_label']))} Hz"
         if code.get("lazy_ok") is False:
             return "stft/istft of Dask-backed copies (alone and evaluated in one graph) differ from the NumPy-backed results or are not lazy"
+        if code.get("rejects"):
+            return "stft/istft argument checks: " + "; ".join(code["rejects"])
         if code.get("repeat_ok") is False:
             return "istft (or stft) called a second time on the same object gives a different answer, or changed its argument"
         w = code["istft"]
